@@ -70,10 +70,10 @@ def rand_text(r, maxlen=12) -> str:
             out.append(r.choice('"\\/\b\f\n\r\t'))
         elif k < 0.7:
             out.append(chr(r.randrange(0, 32)))
-        elif k < 0.84:
-            out.append(chr(r.randrange(0xA0, 0xD7FF)))
         elif k < 0.85:
-            out.append(chr(r.randrange(0xD800, 0xE000)))      # a lone surrogate
+            # (no surrogate code points: they are not Unicode text, and two of
+            # them side by side cannot be told from one character in JSON)
+            out.append(chr(r.randrange(0xA0, 0xD7FF)))
         elif k < 0.93:
             out.append(chr(r.randrange(0xE000, 0xFFFF)))
         else:
